@@ -202,7 +202,7 @@ def setup(ctx):
         req += [f + ":consistency", f + ":mirror"]
     for f in ("sw-hll", "euler-hlle", "euler-hllc", "euler2d-hlle"):
         req.append(f + ":upwind")
-    ctx.require(*req)
+    ctx.require(*req, "scalar-calls")
 
 
 def teardown(ctx):
@@ -229,7 +229,7 @@ def _wave_pairs(rng, n, cfun):
     k = n // 10
     mR[:k] = mL[:k]
     mL[k:2 * k] = rng.choice([-1.0, 1.0], k); mR[k:2 * k] = rng.choice([-1.0, 1.0, 0.5], k)    # exactly sonic
-    mL[2 * k:3 * k] = 0.0; mR[2 * k:3 * k] = rng.choice([0.0, 0.3, -0.3], k)                   # stagnation
+    mL[2 * k:3 * k] = rng.choice([0.0, -0.0], k); mR[2 * k:3 * k] = rng.choice([0.0, -0.0, 0.3, -0.3], k)     # stagnation (+0 and -0)
     mL[3 * k:5 * k] = rng.uniform(1.05, 10, 2 * k); mR[3 * k:5 * k] = rng.uniform(1.05, 10, 2 * k)   # supersonic right
     mL[5 * k:7 * k] = -rng.uniform(1.05, 10, 2 * k); mR[5 * k:7 * k] = -rng.uniform(1.05, 10, 2 * k)  # supersonic left
     mR[7 * k:8 * k] = -mL[7 * k:8 * k]                                                          # uL = -uR (in Mach)
@@ -290,7 +290,16 @@ def pairs_euler1d(ctx, rng, idx):
     model = euler.euler1d(gamma=gam) if idx % 2 else euler.nozzle(lambda x: 1 + 0 * x, gamma=gam)
     gen.maybe_decoy(rng, 0.5)
     ctx.describe(model=type(model).__name__, gamma=gam, flux=flux, L=[rL[:4], uL[:4], pL[:4]], R=[rR[:4], uR[:4], pR[:4]], npairs=n, huge_ratio=big)
-    model.numflux(flux, [rL, uL, pL], [rR, uR, pR])
+    F = model.numflux(flux, [rL, uL, pL], [rR, uR, pR])
+    # the same states one by one as python floats and as numpy scalars (1D boundary faces are evaluated that way): judged by the
+    # monitor like any other call, and equal to the array result up to the libm-pow ulp
+    for j in rng.integers(0, n, 6):
+        for cast in (float, np.float64):
+            Fj = model.numflux(flux, [cast(rL[j]), cast(uL[j]), cast(pL[j])], [cast(rR[j]), cast(uR[j]), cast(pR[j])])
+            for i in range(3):
+                sc = abs(float(F[i][j])) + max(rL[j], rR[j]) * (abs(uL[j]) + abs(uR[j]) + np.sqrt(gam * max(pL[j] / rL[j], pR[j] / rR[j]))) ** (i + 1) + 1e-300
+                ctx.close("euler-scalar-call", abs(float(np.asarray(Fj[i]).ravel()[0]) - float(F[i][j])) / sc, 1e-13, "euler-%s/scalar-call-differs-from-array-call" % ("hllc" if flux is None else flux),
+                          {"type": cast.__name__, "eq": i}, cls="scalar-calls")
     ctx.nontrivial("euler1d", flux, gam, rL[:4], uL[:4])
 
 
